@@ -138,6 +138,7 @@ func genC05(rng *rand.Rand, tier string) *sim.Plan {
 		}
 		p.Phases = append(p.Phases, ph)
 	}
+	maybeRedis(rng, p, 0.2)
 	return p
 }
 
